@@ -4,7 +4,9 @@ Spec: spec/Wtml.tla (names as character sequences: Path, Template, Expand, FileT
 PathInjective, RoundTrip, FileTypeIsExtension; Judge = the property's sentences over an observed output directory),
 spec/WtmlWalk.tla (the theorems as invariants of a walk over every position to a depth bound, every scheme and format)
 and spec/WtmlHistory.tla (the tile_fits history machine: fresh / reuse / override on ONE output directory, invariants
-ReturnedAgrees, TemplateAddressesFiles, LevelsIsDeepest, FileTypeIsExt, JudgeAgrees).
+ReturnedAgrees, CompletedIsIndexed, TemplateAddressesFiles, LevelsIsDeepest, FileTypeIsExt, JudgeAgrees), spec/WtmlFormats.tla
+(the library-route machine: a Builder over a PyramidIO whose tile format is chosen independently of the format the input
+carries itself - base layer, cascade level by level, index - with the same sentences as invariants of the indexed state).
 
 Binding
  (a) spec -> code: TLC checks the naming theorems for every position to a depth bound plus seeded deep positions and
@@ -18,6 +20,12 @@ Binding
      are run on small synthetic inputs with PyramidIO.write_image / Image.save observed (which position was saved
      under which name); the observation (Url, FileType, TileLevels of index_rel.wtml, the tile files found, the
      saves) is handed to TLC, which evaluates the property's sentences (Judge).
+ (b') spec -> code: the format machine enumerates every (naming scheme, pyramid format in png/jpg/npy/fits, input kind - Pillow
+     bitmap, float array carrying npy, FITS file; RGB / float sampler -, entry point Builder.tile_base_as_study /
+     prepare_+execute_study_tiling / study.tile_study_image / Builder.toast_base, study size or TOAST depth, and for the all-sky
+     route an explicit format= request); TLC emits for each the files, Url, FileType and TileLevels it leaves; the cases
+     (thorough: all; quick: every kind x format x scheme once, entry points and sizes in rotation) are replayed through the
+     real API, the observed directory goes through the judge of (b) and is compared with the machine's directory.
  (c) spec -> code: the history machine is explored to 4 calls; its histories (thorough: every 4-call history; quick: every
      3-call history, the 4-call family fresh(X), reuse, override(Y # X), reuse, and a seeded sample of the other 4-call
      ones) are replayed with real tile_fits calls on one real directory, all calls of a history in one process, the
@@ -27,7 +35,9 @@ Binding
      exploration (3 calls) lets one call of a history be INTERRUPTED after its tiles and before its index (Ctrl-C raised by
      the hook between the last tile and the index, or when the cascade starts; for a single TAN image also the natural
      route, a keyword the cascade rejects), leaving the PARTIAL directory, and lets calls come through `toasty view`;
-     where no index exists nothing is claimed, whatever index exists after any call is judged.  After every call the returned Builder's imgset/place must equal the parsed index_rel.wtml
+     where no index exists nothing is claimed, whatever index exists after any call is judged.  A third exploration starts
+     with the directory EXISTING AND EMPTY (the caller made it): the first call is then the fresh call of the history and has to
+     leave the pyramid and its index.  After every call the returned Builder's imgset/place must equal the parsed index_rel.wtml
      (sentence 2) and the directory must be the one the machine predicts; every directory state also goes through (b).
 """
 import enum
@@ -756,7 +766,11 @@ def run(ctx):
                 "checked after each call); the inputs include a 10-level pyramid so that directory states with two-digit level names are "
                 "overridden and reused; out_dir spelled absolute / relative / x/../out in turn; plus histories (3 calls) with one call interrupted "
                 "after its tiles and before its index and with calls through `toasty view` (thorough: all; quick: one continuation of every "
-                "2-call beginning `interrupted ; any call` + a seeded sample). distinct = distinct (scheme, format, position) / observation / history")
+                "2-call beginning `interrupted ; any call` + a seeded sample); plus every history (2 calls, thorough 3) on a directory that exists, "
+                "empty, before the first call; (b') the cases of the format machine (pyramid format independent of the input's own format; both "
+                "schemes; study entry points tile_base_as_study / prepare+execute / tile_study_image and toast_base, with and without an explicit "
+                "format=): thorough all, quick every (kind, format, scheme) once with entry points and sizes in rotation. "
+                "distinct = distinct (scheme, format, position) / observation / history / format case")
     indir = ctx.mkdtemp("inputs")
     inp = make_inputs(indir, quick)
 
@@ -1362,7 +1376,7 @@ def run(ctx):
                    "the parallel stages write through the same PyramidIO.write_image")
         ctx.assume("metadata files (index_rel.wtml, index.wtml, thumb.jpg) are not tiles")
 
-    pool = mp.Pool(8)
+    pool = mp.Pool(6)
     try:
         _checks(pool, pool.map_async(run_workflow, flows, chunksize=1))
     finally:
